@@ -233,7 +233,7 @@ fn check_desc(rep: &Report, cen: &mut Census, pol: &P, entry: &str, d: &Descript
 
 pub fn policies(n_leaves: usize) -> Vec<P> {
     let shapes = enum_concrete_shapes(n_leaves, &[(1, 1), (9, 1), (1, 9)], 4);
-    let kinds = 5usize; // key, sha256, after(h), older(r), after(t)
+    let kinds = 6usize; // key, sha256, after(height), older(blocks), after(time), older(512 s units, same low bits as the block one)
     let mut out = vec![];
     for (nl, lv) in shapes.iter().enumerate() {
         for sh in lv {
@@ -256,7 +256,8 @@ pub fn policies(n_leaves: usize) -> Vec<P> {
                             }
                             2 => P::After(10),
                             3 => P::Older(5),
-                            _ => P::After(500_000_010),
+                            4 => P::After(500_000_010),
+                            _ => P::Older(4_194_309),
                         }
                     })
                     .collect();
@@ -298,6 +299,24 @@ pub fn large_policies() -> Vec<P> {
                     out.push(P::Thresh(1, vec![x.clone(), t.clone(), key(20)]));
                 }
             }
+        }
+    }
+    // two (and three) key branches each guarded by its own lock, every ordered pair of lock leaves of
+    // both kinds and both units (the compiler caches sub-policies: equal-looking locks must stay distinct)
+    let locks = [P::After(10), P::After(500_000_010), P::Older(5), P::Older(4_194_309), P::After(11), P::Older(6)];
+    for l1 in &locks {
+        for l2 in &locks {
+            if l1 == l2 {
+                continue;
+            }
+            let b1 = P::And(vec![key(1), l1.clone()]);
+            let b2 = P::And(vec![key(2), l2.clone()]);
+            for (a, b) in [(1usize, 1usize), (9, 1), (1, 9)] {
+                out.push(P::Or(vec![(a, b1.clone()), (b, b2.clone())]));
+            }
+            out.push(P::Or(vec![(1, key(3)), (1, P::Or(vec![(1, b1.clone()), (1, b2.clone())]))]));
+            out.push(P::Thresh(1, vec![b1.clone(), b2.clone(), key(3)]));
+            out.push(P::Or(vec![(1, P::And(vec![key(1), P::Or(vec![(1, l1.clone()), (1, key(4))])])), (1, b2.clone())]));
         }
     }
     // or-chains / and-chains of five and six keys, left- and right-leaning, with skewed odds
@@ -454,7 +473,7 @@ pub fn run(tier: Tier) -> i32 {
         rep.get("meaning_preserved") + rep.get("worlds_executed") + rep.get("types_rebuilt_equal"),
         rep.get("compile_calls"),
         ok.min(rep.get("worlds_executed").max(2)),
-        "ALL concrete policies up to the leaf bound (+ fixed-shape larger policies: compound branch x k-of-n key threshold n = 3..5 under or / and / thresh and every odds, 5- and 6-key chains; taproot leaf caps 1..8 and 1024 for them) (and / or with odds 1:1, 9:1, 1:9 / thresh arity <= 4, all k; leaves from key, sha256, after(height), older, after(time); distinct keys) x every compiler entry point: output truth table == policy truth table (own lift, all assignments), small policies additionally executed on the RSM in every world, output sane / signed / non-malleable / within limits / no forbidden fragment, stored ty/ext of every node equal from_ast, every candidate the compiler considered on the way (hook H2; Cast tables, binary / ternary constructors) carries the type and extra data the type checker computes, string re-parses with the default parser to the same structure. non-trivial = min(successful compilations, worlds executed)",
+        "ALL concrete policies up to the leaf bound (+ fixed-shape larger policies: compound branch x k-of-n key threshold n = 3..5 under or / and / thresh and every odds, 5- and 6-key chains; taproot leaf caps 1..8 and 1024 for them) (and / or with odds 1:1, 9:1, 1:9 / thresh arity <= 4, all k; leaves from key, sha256, after(height), older(blocks), after(time), older(time); distinct keys) x every compiler entry point: output truth table == policy truth table (own lift, all assignments), small policies additionally executed on the RSM in every world, output sane / signed / non-malleable / within limits / no forbidden fragment, stored ty/ext of every node equal from_ast, every candidate the compiler considered on the way (hook H2; Cast tables, binary / ternary constructors) carries the type and extra data the type checker computes, string re-parses with the default parser to the same structure. non-trivial = min(successful compilations, worlds executed)",
         true,
     )
 }
